@@ -162,6 +162,8 @@ def check_big_queue(run, case, npops=62000):
     finally:
         repo.drop_rules(name)
 
+FIXED_TIE_SEEDS = list(range(9000, 9080))
+
 def long_session_case(rng):
     """One structure D2D2D2 over 48 values of pairwise different probability: 110 592 pre-terminals of one guess each, run through the real main() - whatever the
     session does every so many pre-terminals (progress lines, bookkeeping), the order of the stream is the order of the probabilities."""
@@ -202,6 +204,14 @@ def run(run, rng):
         run.guard(big_queue_case(rng), check_big_queue, seconds=600)
     if run.shard[0] == 2 % run.shard[1]:
         run.guard(long_session_case(rng), check_long_session, seconds=600)
+    if run.shard[0] == 3 % run.shard[1]:
+        # tie-heavy rulesets from a generator of their own (the same ones under every seed): exact ties, near ties and underflow, several groups per variable
+        import random as _r
+        for fixed_seed in FIXED_TIE_SEEDS:
+            r2 = _r.Random(fixed_seed)
+            spec = rulesets.gen_spec(r2, pool=r2.choice(['nearties', 'dyadic', 'dyadic3', 'equal', 'tiny', 'decimal', 'thirds']), min_groups=3, max_groups=7, max_len=4, n_base=r2.randint(2, 4))
+            run.ev('fixed_tie_rulesets')
+            run.guard({'spec': spec, 'flags': {'skip_brute': False, 'all_lower': False, 'folder': 'Grammar'}}, check_case, determinism=False, seconds=120)
     n = N[run.tier]
     for i in range(n):
         case = gen_case(rng)
